@@ -291,13 +291,21 @@ func (s *Server) handleInsertRecord(w http.ResponseWriter, r *http.Request) {
 		}
 	}
 
+	// Validate every record before storing any of them, so that a rejected
+	// request leaves the collection unchanged.
 	for _, record := range records {
 		// Ensure a vector is present
 		if record.Vector == nil {
 			http.Error(w, "Either vector or text must be provided", http.StatusBadRequest)
 			return
 		}
+		if len(record.Vector) != collection.DimensionCount {
+			http.Error(w, fmt.Sprintf("Vector size does not match the collection: expected %d, got %d", collection.DimensionCount, len(record.Vector)), http.StatusBadRequest)
+			return
+		}
+	}
 
+	for _, record := range records {
 		metadataBytes, err := json.Marshal(record.Metadata)
 		if err != nil {
 			http.Error(w, "Failed to encode metadata", http.StatusInternalServerError)
